@@ -93,6 +93,18 @@ claim("C05",
       "orthonormal DFT assumed (round trip / norm preservation follow from the proved kernel identity); rank <= 2 quick / 3 thorough; FFT rounding not bounded.",
       "contract-based deductive verification (symbolic execution to linear forms with abstract twiddle kernel; rotation rule; congruence lemma; z3)")
 
+claim("C06",
+      "The real fourier.nufft / nufft_adjoint (with _apodize, _scale_coord, _get_oversamp_shape) are executed on symbolic image extents, symbolic oversampling "
+      "and width, value-array coordinates, against callee contracts for the centred DFT (C05), resize (C09) and Kaiser-Bessel interpolation/gridding as a separable "
+      "weight of the coordinate VALUE (C07). Proved for 1-D and 2-D (3-D thorough), 0-1 batch axes: (i) nufft equals, coefficient by coefficient, the mechanism of the "
+      "property text - sinh apodisation centred at N//2, scale by N^-1/2, zero-pad to ceil(oversamp N), unnormalised centred DFT, interpolation at c*os/N + os//2 with "
+      "beta = pi sqrt((w/os (os-1/2))^2 - 0.8), division by width^ndim; (ii) nufft_adjoint is the EXACT adjoint with the same scaling (conjugate coefficients); "
+      "(iii) output shapes; (iv) a coordinate shift by N maps to exactly one oversampled period (periodicity via the interpolation wrap-around).",
+      "The accuracy bound itself (3 % at the defaults, 0.3 % at oversamp=2) is a numerical-analysis statement about the Kaiser-Bessel kernel that no contract in reach "
+      "decides: it is covered ONLY by the bounded native probe against the exact non-uniform DFT (labelled bounded, not proved). Image extents >= 2 in the deductive part; "
+      "definedness of sqrt/sinh/division inside the apodisation not generated (numpy evaluates them in complex arithmetic).",
+      "contract-based deductive verification (symbolic execution against callee contracts, summation matching, congruence abstraction + polynomial normal form, z3) + bounded native probe for the accuracy clause")
+
 claim("C07",
       "The real numba loop nests _interpolate1..3/_gridding1..3 and the real wrappers (batch flattening, per-axis width/param, kernel/ndim dispatch) are "
       "summarised (one generic iteration per loop) and proved equal to the documented windowed sum: same summation range |g-c| <= W/2 (ceil/floor), "
